@@ -268,6 +268,15 @@ impl http_serve::Entity for HEntity {
             .lock()
             .unwrap()
             .push(Call::GetRange(range.start, range.end));
+        // the trait's contract: the range lies within the entity; like a slice, this entity
+        // refuses anything else
+        assert!(
+            range.start <= range.end && range.end <= self.len,
+            "get_range({}..{}) outside an entity of {} bytes",
+            range.start,
+            range.end,
+            self.len
+        );
         let script = self
             .scripts
             .lock()
@@ -678,10 +687,84 @@ pub fn serve_line(q: &HReq, e: &HEntity, now: u64) -> String {
 }
 
 /// Calls the real `serve` and returns the response with its body (no draining).
+// ---- call histories: what was served before must not matter
+//
+// Every 4th `serve` / `streaming_body` call a suite makes is preceded, on the same thread, by one of
+// a few unrelated calls (another entity's multipart, conditional and error responses, drained or
+// dropped; streaming bodies negotiated for other header values). A correct crate keeps no state
+// between calls, so this changes nothing; state that leaks (a cache, a recycled buffer or header
+// map) shows up in the case that follows, whose failure message then names the call before it.
+
+static HISTORY_TICK: AtomicU64 = AtomicU64::new(0);
+static LAST_HISTORY: Mutex<String> = Mutex::new(String::new());
+
+pub fn last_history() -> String {
+    LAST_HISTORY.lock().map(|s| s.clone()).unwrap_or_default()
+}
+
+/// Called by the harness before each call into the crate on behalf of a case.
+pub fn history_noise() {
+    let t = HISTORY_TICK.fetch_add(1, Ordering::Relaxed);
+    if t % 4 != 3 {
+        LAST_HISTORY.lock().unwrap().clear();
+        return;
+    }
+    let k = (t / 4) % 13;
+    let mut e = HEntity::new(1000);
+    e.etag = Some(b"\"other-entity\"".to_vec());
+    e.mtime = Some(UNIX_EPOCH + Duration::new(1_000_000_000, 123));
+    e.headers = vec![
+        ("content-encoding".into(), b"gzip".to_vec()),
+        ("vary".into(), b"accept-encoding".to_vec()),
+        ("x-other-entity".into(), b"leak".to_vec()),
+        ("content-type".into(), b"application/x-other".to_vec()),
+    ];
+    let mut q = HReq::get();
+    let mut drain = true;
+    let what = match k {
+        0 => { q.range = Some(b"bytes=0-0, 5-5".to_vec()); "multipart GET of another entity, drained" }
+        1 => { q.range = Some(b"bytes=0-0, 5-5".to_vec()); drain = false; "multipart GET of another entity, body dropped unpolled" }
+        2 => { q.range = Some(b"bytes=0-0, 5-5".to_vec()); q.method = "HEAD".into(); "multipart HEAD of another entity" }
+        3 => { q.if_none_match = Some(b"*".to_vec()); "304 for another entity" }
+        4 => { q.if_match = Some(b"\"nope\"".to_vec()); "412 for another entity" }
+        5 => { q.range = Some(b"bytes=5000-".to_vec()); "416 for another entity" }
+        6 => { q.range = Some(b"bytes=7-".to_vec()); "single-range GET of another entity, drained" }
+        7 => { "plain GET of another entity, drained" }
+        // requests abandoned half-way through parsing
+        10 => { q.range = Some(b"bytes=900-901,oops".to_vec()); "a Range list with a valid spec and then a malformed one" }
+        11 => { q.if_none_match = Some(b"\"other-entity\", \"b\", oops".to_vec()); q.if_match = Some(b"\"a\", W/".to_vec()); "entity-tag lists that turn malformed after valid tags" }
+        12 => { q.range = Some(b"bytes=0-0,5-5".to_vec()); q.if_range = Some(b"\"other-entity\"".to_vec()); "multipart GET of another entity with a matching If-Range, drained" }
+        8 | _ => {
+            // a streaming body negotiated for another client
+            let ae: &[u8] = if k == 8 { b"gzip" } else { b"GZIP;q=0, identity" };
+            let _ = std::panic::catch_unwind(std::panic::AssertUnwindSafe(|| {
+                let req = http::Request::get("/").header("accept-encoding", HeaderValue::from_bytes(ae).unwrap()).body(()).unwrap();
+                let (resp, w) = http_serve::streaming_body(&req).with_chunk_size(5).with_gzip_level(if k == 8 { 9 } else { 0 }).build::<Bytes, BoxError>();
+                if let Some(mut w) = w {
+                    use std::io::Write as _;
+                    let _ = w.write_all(b"other client's bytes");
+                    let _ = w.flush();
+                }
+                drop(drive_to_end(resp.into_body(), 64));
+            }));
+            *LAST_HISTORY.lock().unwrap() = format!("a streaming body for Accept-Encoding: {}", String::from_utf8_lossy(ae));
+            return;
+        }
+    };
+    let _ = std::panic::catch_unwind(std::panic::AssertUnwindSafe(|| {
+        let resp = http_serve::serve(e.clone(), &q.build());
+        if drain {
+            drop(drive_to_end(resp.into_body(), 64));
+        }
+    }));
+    *LAST_HISTORY.lock().unwrap() = what.to_string();
+}
+
 pub fn call_serve(
     q: &HReq,
     e: &HEntity,
 ) -> Result<(http::Response<SBody>, u64, u64), ()> {
+    history_noise();
     let req = q.build();
     let before = secs_now();
     let ent = e.clone();
@@ -1003,6 +1086,9 @@ impl Emit {
     /// coverage histogram.
     pub fn case(&mut self, line: &str, impl_out: &str, pred: &str, class: &str) {
         debug_assert!(!line.contains('\t') && !impl_out.contains('\t'));
+        // a failure right after a history call names that call (see `history_noise`)
+        let h = if pred == "ok" { String::new() } else { last_history() };
+        let pred = if h.is_empty() { pred.to_string() } else { format!("{} [the call before this one on the same thread: {}]", pred, h) };
         writeln!(self.out, "CASE\t{}\t{}\t{}\t{}", line, impl_out, pred, class).unwrap();
         self.n += 1;
     }
